@@ -152,7 +152,8 @@ def generated_expected(ctx, n):
             inner = inner[:-1] if inner.endswith("]") else inner
             got_hdr = (core.unesc(head.split("|")[0]), head.split("|")[1])
         got = ["%s|%s" % (core.unesc(x.split("|")[0]), x.split("|")[1]) for x in inner.split(",") if x]
-        if got != ent or (got_hdr or None) != (hdr or None):
+        fold = lambda l: [x.lower() if x.split("|")[0].split("#")[0].lower() in wf.KEYWORDS else x for x in l]   # keyword-like names are re-cased by the layout step
+        if fold(got) != fold(ent) or (got_hdr or None) != (hdr or None):
             ctx.oracle_fail("C12:outline-differs-from-declarations", "the outline is not the generator's list of top-level declarations",
                             {"mode": "text", "text": text, "case": line, "outline": [got_hdr, got], "declared": [hdr, ent]})
 
